@@ -64,6 +64,7 @@ From ORatio Require Import smt.SatCoreBase smt.SatCoreSpec smt.SatCore
 From ORatio Require smt.DlDom smt.Dl smt.DlInst smt.DlAdapter proofs.DlOrd_Proofs proofs.DlSpec_Proofs proofs.DlAdapter_Proofs
   proofs.DlHist_Proofs proofs.DlIdl_Proofs proofs.DlRdl_Proofs.
 From ORatio Require smt.Lra smt.LraAdapter proofs.LraAdapter_Proofs.
+From ORatio Require Import proofs.SatCoreGuard_Proofs.
 Import ListNotations.
 
 (* the assignment vector is a function of the trail alone, after ANY history *)
@@ -318,3 +319,53 @@ Theorem C08_lra_theory_undo : forall ts0 ts, LraAdapter_Proofs.lra_inv ts0 ->
   LraAdapter.lra_obs (LraAdapter.lra_thpop ts) = LraAdapter.lra_obs ts0.
 Proof. exact LraAdapter_Proofs.lra_th_undo. Qed.
 Print Assumptions C08_lra_theory_undo.
+
+(* ---------------------------------------------------------------------------------------------- *)
+(* the trace-form theorem under the contract RELATIVE to a theory invariant K (proofs/SatCoreGuard_Proofs.v; obligations (P1-P4),
+   (V1), (V2) as listed in Properties_C07.v): for the network sat_core + guarded theory the undo law of the RAW theory relative
+   to K is all that is asked - K holds by typing, no theory_contract hypothesis is left *)
+(* assume ; pop restores the observable state, theory observation included *)
+Theorem C08_pop_after_assume_restores_under_the_relative_contract :
+  forall (TS : Type) (T : SatCoreBase.asg -> Prop)
+           (thp : TS -> list SatCoreBase.lbool -> nat -> SatCoreBase.lit -> TS * list (list SatCoreBase.lit) * option (list SatCoreBase.lit))
+           (thc : TS -> list SatCoreBase.lbool -> nat -> TS * list (list SatCoreBase.lit) * option (list SatCoreBase.lit)) (thpush thpop : TS -> TS)
+           (K : TS -> Prop) (gp : TS -> list SatCoreBase.lbool -> nat -> SatCoreBase.lit -> bool) (gc : TS -> list SatCoreBase.lbool -> nat -> bool)
+           (K_p : forall (ts : TS) (a : list SatCoreBase.lbool) (dl : nat) (p : SatCoreBase.lit), K ts -> gp ts a dl p = true -> K (fst (fst (thp ts a dl p))))
+           (K_c : forall (ts : TS) (a : list SatCoreBase.lbool) (dl : nat), K ts -> gc ts a dl = true -> K (fst (fst (thc ts a dl))))
+           (K_push : forall ts : TS, K ts -> K (thpush ts)) (K_pop : forall ts : TS, K ts -> K (thpop ts)),
+         (forall (s : @SatCore.state {ts : TS | K ts}) (p : SatCoreBase.lit),
+          SatCoreInv_Proofs.Inv T s ->
+          List.In p (SatCore.trail s) ->
+          SatCoreAnalyze_Proofs.lvl s p = SatCore.decision_level s ->
+          gp (proj1_sig (SatCore.thst s)) (SatCore.assigns s) (SatCore.decision_level s) p = true ->
+          SatCoreRun_Proofs.th_result_ok T s
+            (SatCore.thst s, snd (fst (thp (proj1_sig (SatCore.thst s)) (SatCore.assigns s) (SatCore.decision_level s) p)),
+             snd (thp (proj1_sig (SatCore.thst s)) (SatCore.assigns s) (SatCore.decision_level s) p))) ->
+         (forall s : @SatCore.state {ts : TS | K ts},
+          SatCoreInv_Proofs.Inv T s ->
+          gc (proj1_sig (SatCore.thst s)) (SatCore.assigns s) (SatCore.decision_level s) = true ->
+          SatCoreRun_Proofs.th_result_ok T s
+            (SatCore.thst s, snd (fst (thc (proj1_sig (SatCore.thst s)) (SatCore.assigns s) (SatCore.decision_level s))),
+             snd (thc (proj1_sig (SatCore.thst s)) (SatCore.assigns s) (SatCore.decision_level s))) /\
+          snd (fst (thc (proj1_sig (SatCore.thst s)) (SatCore.assigns s) (SatCore.decision_level s))) = nil) ->
+         forall sort : (SatCoreBase.lit -> SatCoreBase.lit -> bool) -> list SatCoreBase.lit -> list SatCoreBase.lit,
+         SatCoreThm_Proofs.sort_contract sort ->
+         forall (FUEL : nat) (O : Type) (th_obs : TS -> O),
+         (forall ts0 ts : TS, K ts0 -> SatCoreUndo_Proofs.th_reach thp thc (thpush ts0) ts -> th_obs (thpop ts) = th_obs ts0) ->
+         forall (ops : list SatCore.op) (w0 : WS K),
+         SatCore.run_ok sort (w_thp thp K gp K_p) (w_thc thc K gc K_c) (w_thpush thpush K K_push) (w_thpop thpop K K_pop) FUEL ops (SatCore.init w0) = true ->
+         SatCore.ub (SatCore.run sort (w_thp thp K gp K_p) (w_thc thc K gc K_c) (w_thpush thpush K K_push) (w_thpop thpop K K_pop) FUEL ops (SatCore.init w0)) =
+         false ->
+         forall (p : SatCoreBase.lit) (s' : SatCore.state),
+         SatCore.pre (SatCore.run sort (w_thp thp K gp K_p) (w_thc thc K gc K_c) (w_thpush thpush K K_push) (w_thpop thpop K K_pop) FUEL ops (SatCore.init w0))
+           (SatCore.OAssume p) = true ->
+         SatCore.assume sort (w_thp thp K gp K_p) (w_thc thc K gc K_c) (w_thpush thpush K K_push) (w_thpop thpop K K_pop) FUEL
+           (SatCore.run sort (w_thp thp K gp K_p) (w_thc thc K gc K_c) (w_thpush thpush K K_push) (w_thpop thpop K K_pop) FUEL ops (SatCore.init w0)) p =
+         (s', SatCore.RTrue) ->
+         SatCore.log s' =
+         SatCore.log (SatCore.run sort (w_thp thp K gp K_p) (w_thc thc K gc K_c) (w_thpush thpush K K_push) (w_thpop thpop K K_pop) FUEL ops (SatCore.init w0)) ->
+         SatCoreUndo_Proofs.restored O (fun w : {ts : TS | K ts} => th_obs (proj1_sig w))
+           (SatCore.run sort (w_thp thp K gp K_p) (w_thc thc K gc K_c) (w_thpush thpush K K_push) (w_thpop thpop K K_pop) FUEL ops (SatCore.init w0))
+           (SatCore.pop (w_thpop thpop K K_pop) s').
+Proof. exact @w_pop_assume. Qed.
+Print Assumptions C08_pop_after_assume_restores_under_the_relative_contract.
